@@ -626,6 +626,9 @@ func TestC18Dial(t *testing.T) {
 type c18Refresh struct {
 	Old, New []string // address sets before / after the change
 	TTLms    int
+	// Idle: the host is not dialled at all between the refresh before the change and a moment several
+	// refresh intervals after it (a target that is hit rarely)
+	Idle bool `json:",omitempty"`
 }
 
 func c18RefreshOnce(c c18Refresh, attempt int) (stale bool, detail string, inconclusive bool) {
@@ -682,6 +685,31 @@ func c18RefreshOnce(c c18Refresh, attempt int) (stale bool, detail string, incon
 		return false, fmt.Sprintf("first dial went to %v, resolved %v", d, c.Old), true
 	}
 	dial()
+	if c.Idle {
+		answered := func() int {
+			c18DNS.mu.Lock()
+			defer c18DNS.mu.Unlock()
+			return c18DNS.answered[fq]
+		}
+		// wait for the next refresh to have looked the name up (it was dialled, so it is refreshed) ...
+		a0 := answered()
+		deadline := time.Now().Add(time.Duration(4*c.TTLms)*time.Millisecond + 5*time.Second)
+		for answered() == a0 {
+			if time.Now().After(deadline) {
+				return false, "no refresh lookup arrived", true
+			}
+			time.Sleep(2 * time.Millisecond)
+		}
+		time.Sleep(20 * time.Millisecond) // (both families' answers stored)
+		// ... then change the addresses and leave the host alone for many refresh intervals
+		set(c.New)
+		time.Sleep(time.Duration(12*c.TTLms) * time.Millisecond)
+		d := dial()
+		if in(d, c.New) {
+			return false, "", false
+		}
+		return true, fmt.Sprintf("attempt %d: refresh every %dms, address set changed from %v to %v right after a refresh; %d ms later (the host was not dialled in between) a dial went to %v", attempt, c.TTLms, c.Old, c.New, 12*c.TTLms, d), false
+	}
 	// change the address set and hold the answers of the next lookups (the refresh)
 	release := make(chan struct{})
 	c18DNS.mu.Lock()
@@ -743,12 +771,15 @@ func TestC18Refresh(t *testing.T) {
 	vh.ShrinkTime("1s")
 	vh.Check(t, 1, 6, func(t *rapid.T) {
 		c := c18Refresh{TTLms: rapid.SampledFrom([]int{1200, 1500}).Draw(t, "ttl")}
+		if c.Idle = rapid.Bool().Draw(t, "idle"); c.Idle {
+			c.TTLms = rapid.SampledFrom([]int{60, 100}).Draw(t, "idlettl")
+		}
 		n := rapid.IntRange(1, 3).Draw(t, "n")
 		for i := 0; i < n; i++ {
 			c.Old = append(c.Old, fmt.Sprintf("10.9.0.%d", i+1))
 			c.New = append(c.New, fmt.Sprintf("10.9.1.%d", i+1))
 		}
-		vh.Case("C18.refresh", fmt.Sprintf("%+v", c), true, "address-set-change")
+		vh.Case("C18.refresh", fmt.Sprintf("%+v", c), true, "address-set-change", fmt.Sprintf("host-idle-after-the-change:%v", c.Idle))
 		vh.Sample("C18.refresh", true, c)
 		if err := runC18Refresh(c); err != nil {
 			vh.Fail(t, "C18", "C18.refresh", c, err)
